@@ -187,8 +187,8 @@ fn main() {
             order: order.to_string(),
             seed: args.seed.wrapping_add(*i as u64 * 7919),
             policy: m.policy,
-            dense: m.dense_variant.map(|v| p.variant == v).unwrap_or(false),
-            dense_pattern: if m.dense_variant.map(|v| p.variant == v).unwrap_or(false) && p.aux >= 100 { Some(p.aux - 100) } else { None },
+            dense: m.dense_variant.map(|v| p.variant == v).unwrap_or(false) || m.dense_mask.map(|k| p.variant & k != 0).unwrap_or(false),
+            dense_pattern: if (m.dense_variant.map(|v| p.variant == v).unwrap_or(false) || m.dense_mask.map(|k| p.variant & k != 0).unwrap_or(false)) && p.aux >= 100 { Some(p.aux - 100) } else { None },
             final_timeout_ms: if args.thorough { 60000 } else { 10000 },
             cross_check: args.thorough || std::env::var("SYMFROST_CROSS").is_ok(),
             ..RunCfg::default()
